@@ -110,55 +110,84 @@ def run_bin(name, args, lines=None, timeout=900, raw=False, env=None, pkg="vh"):
     return [json.loads(l) for l in p.stdout.split("\n") if l.strip()]
 
 
-def run_bin_parallel(name, args, cases, shards=NCPU, timeout=900, pkg="vh"):
-    """Shard `cases` over several processes, keep order."""
+def run_bin_parallel(name, args, cases, shards=NCPU, timeout=900, pkg="vh", on_fail="raise", case_timeout=None):
+    """Shard `cases` over several processes, keep order.
+
+    on_fail="mark": a case on which the driver hangs (its watchdog, exit status 3, or our own
+    timeout) or dies (signal / abort) gets the result {"status": "hang"|"crash", "harness": ...}
+    and the driver is restarted on the rest of the shard; with "raise" (default) any of these
+    raises RuntimeError."""
     build_harness(pkg)
     if not cases:
         return []
     shards = max(1, min(shards, len(cases) // 50 + 1))
     chunks = [cases[i::shards] for i in range(shards)]
-    procs = []
-    for ch in chunks:
+    import threading
+    results = [None] * len(chunks)
+    env = env_offline()
+    if case_timeout:
+        env["VH_CASE_TIMEOUT"] = str(case_timeout)
+
+    def one(ch):
         inp = "".join(json.dumps(x, ensure_ascii=False) + "\n" for x in ch)
         p = subprocess.Popen([bin_path(pkg, name)] + list(args), stdin=subprocess.PIPE,
-                             stdout=subprocess.PIPE, stderr=subprocess.PIPE, text=True,
-                             env=env_offline())
-        procs.append((p, inp))
-    outs = []
-    import threading
-    results = [None] * len(procs)
-
-    def work(i, p, inp):
+                             stdout=subprocess.PIPE, stderr=subprocess.PIPE, text=True, env=env)
         try:
             o, e = p.communicate(inp, timeout=timeout)
+            rc = p.returncode
         except subprocess.TimeoutExpired:
             p.kill()
             o, e = p.communicate()
-            results[i] = ("timeout", o, e)
-            return
-        results[i] = (p.returncode, o, e)
+            rc = "timeout"
+        return rc, o, e
 
-    ths = [threading.Thread(target=work, args=(i, p, inp)) for i, (p, inp) in enumerate(procs)]
+    def work(i, ch):
+        done = []
+        rest = list(ch)
+        restarts = 0
+        while rest:
+            rc, o, e = one(rest)
+            rs = []
+            for l in o.split("\n"):
+                if l.strip():
+                    try:
+                        rs.append(json.loads(l))
+                    except ValueError:
+                        break       # a line cut short by the exit
+            if rc == 0:
+                if len(rs) != len(rest):
+                    results[i] = RuntimeError(f"{name}: {len(rs)} results for {len(rest)} cases")
+                    return
+                done += rs
+                break
+            if on_fail != "mark" or restarts > 40:
+                results[i] = RuntimeError(f"{name} {args} shard exited {rc}: {e[-3000:]}")
+                return
+            restarts += 1
+            if rc == 3 and rs and rs[-1].get("harness") == "watchdog":
+                done += rs                      # the last line is the verdict of the hanging case
+                rest = rest[len(rs):]
+            else:
+                rs = rs[:len(rest) - 1] if len(rs) >= len(rest) else rs
+                tail = (e or "").strip().splitlines()[-1][:200] if (e or "").strip() else ""
+                done += rs + [{"status": "hang" if rc == "timeout" else "crash", "harness": "exit %s" % rc, "stderr": tail}]
+                rest = rest[len(rs) + 1:]
+        results[i] = done
+
+    ths = [threading.Thread(target=work, args=(i, ch)) for i, ch in enumerate(chunks)]
     for t in ths:
         t.start()
     for t in ths:
         t.join()
-    per = []
-    for (rc, o, e), ch in zip(results, chunks):
-        if rc != 0:
-            raise RuntimeError(f"{name} {args} shard exited {rc}: {e[-3000:]}")
-        rs = [json.loads(l) for l in o.split("\n") if l.strip()]
-        if len(rs) != len(ch):
-            raise RuntimeError(f"{name}: {len(rs)} results for {len(ch)} cases")
-        per.append(rs)
+    for r in results:
+        if isinstance(r, Exception):
+            raise r
     out = [None] * len(cases)
-    for s, rs in enumerate(per):
+    for s, rs in enumerate(results):
         for k, r in enumerate(rs):
             out[s + k * shards] = r
     return out
 
-
-# ---------------------------------------------------------------- Coq side
 
 def coq_str(s):
     """Coq term of type [list N] for a Python string (code points)."""
